@@ -330,6 +330,7 @@ func classifyO(c CaseO) core.Class {
 			if !b.Cfg.SMB {
 				hl = append(hl, hostLabels(b.Cfg.HTTP.Hosts)...)
 			}
+			hl = append(hl, scaleLabels(b.Cfg)...)
 		}
 		cl.Labels = append(cl.Labels, uniqS(hl)...)
 	}
